@@ -76,6 +76,9 @@ type slotModel struct {
 	arrs   map[*ssa.Alloc]*slotArr
 	ranges map[ssa.Value][3]int64
 	home   map[*slotArr]*evaluator // context in which an array's stores are evaluated
+	// skipLanding: per loop header, the blocks control continues at when an iteration was given up (the branch a
+	// cleared flag takes after the loop) — recorded by loopCompletesBefore for the "one cell only" check
+	skipLanding map[*ssa.BasicBlock][]*ssa.BasicBlock
 }
 
 func newSlotModel() *slotModel { return &slotModel{arrs: map[*ssa.Alloc]*slotArr{}} }
@@ -1127,10 +1130,18 @@ func (m *slotModel) overwrittenBefore(sa *slotArr, st *slotStore, ld *ssa.UnOp) 
 	return false
 }
 
-// abnormalExitKilled: the edge from→to leaves the loop early; following unconditional jumps it reaches a block
-// whose terminating `if` tests a boolean phi that is a constant on this path, and the branch taken for that
-// constant cannot reach `target` without passing `again` (the default store) first.
+// abnormalExitKilled: the edge from→to leaves the loop early and cannot lead to `target`: either no path from
+// `to` reaches target without passing `again` (the loop's preheader: the loop is entered afresh and fills
+// everything again), or — following unconditional jumps — it reaches a block whose terminating `if` tests a
+// boolean phi that is a constant on this path, and the branch taken for that constant cannot reach `target`
+// without passing `again` first.
 func abnormalExitKilled(from, to, again, target *ssa.BasicBlock) bool {
+	// decided on the CFG alone when possible: from where the early exit lands, the reads cannot be reached
+	// without entering the loop afresh through its preheader (a labelled `continue` of an enclosing loop, a
+	// return, a panic). A labelled `break` that falls into the reads does reach them and is judged below.
+	if to != target && !reachesVia(to, target, again) {
+		return true
+	}
 	pred, b := from, to
 	for depth := 0; depth < 6; depth++ {
 		if len(b.Instrs) == 0 {
@@ -1262,10 +1273,17 @@ func (m *slotModel) loopCompletesBefore(loop *ssau.Loop, body, target *ssa.Basic
 	if allLatches {
 		return true
 	}
-	return flagGuardsSkippedIterations(loop, body, pre, target)
+	ok, cleared := flagGuardsSkippedIterations(loop, body, pre, target)
+	if ok && cleared != nil {
+		if m.skipLanding == nil {
+			m.skipLanding = map[*ssa.BasicBlock][]*ssa.BasicBlock{}
+		}
+		m.skipLanding[loop.Header] = append(m.skipLanding[loop.Header], cleared)
+	}
+	return ok
 }
 
-func flagGuardsSkippedIterations(loop *ssau.Loop, body, pre, target *ssa.BasicBlock) bool {
+func flagGuardsSkippedIterations(loop *ssau.Loop, body, pre, target *ssa.BasicBlock) (bool, *ssa.BasicBlock) {
 	// the block after the normal exit, following jumps, ends in `if flag`
 	var exit *ssa.BasicBlock
 	for _, w := range loop.Header.Succs {
@@ -1276,7 +1294,7 @@ func flagGuardsSkippedIterations(loop *ssau.Loop, body, pre, target *ssa.BasicBl
 	b := exit
 	for depth := 0; depth < 6 && b != nil; depth++ {
 		if len(b.Instrs) == 0 {
-			return false
+			return false, nil
 		}
 		if iff, ok := b.Instrs[len(b.Instrs)-1].(*ssa.If); ok {
 			cond := iff.Cond
@@ -1294,7 +1312,7 @@ func flagGuardsSkippedIterations(loop *ssau.Loop, body, pre, target *ssa.BasicBl
 			}
 			phi, ok := cond.(*ssa.Phi)
 			if !ok || phi.Block() != loop.Header {
-				return false
+				return false, nil
 			}
 			var initVal *bool
 			for i, pr := range loop.Header.Preds {
@@ -1302,14 +1320,14 @@ func flagGuardsSkippedIterations(loop *ssau.Loop, body, pre, target *ssa.BasicBl
 				if !loop.Blocks[pr] {
 					c, ok := ed.(*ssa.Const)
 					if !ok || c.Value == nil {
-						return false
+						return false, nil
 					}
 					v := c.Value.String() == "true"
 					initVal = &v
 				}
 			}
 			if initVal == nil {
-				return false
+				return false, nil
 			}
 			for i, pr := range loop.Header.Preds {
 				if !loop.Blocks[pr] {
@@ -1318,14 +1336,14 @@ func flagGuardsSkippedIterations(loop *ssau.Loop, body, pre, target *ssa.BasicBl
 				ed := phi.Edges[i]
 				if c, ok := ed.(*ssa.Const); ok && c.Value != nil {
 					if (c.Value.String() == "true") == *initVal {
-						return false // the flag is re-armed inside the loop
+						return false, nil // the flag is re-armed inside the loop
 					}
 					continue // cleared on this path
 				}
 				// unchanged on this path: the iteration must have executed the body; the value may be the header
 				// phi itself or a phi merging it with itself further down
 				if !flagUnchanged(ed, phi, *initVal) || !body.Dominates(pr) {
-					return false
+					return false, nil
 				}
 			}
 			still := *initVal
@@ -1336,15 +1354,15 @@ func flagGuardsSkippedIterations(loop *ssau.Loop, body, pre, target *ssa.BasicBl
 			if still {
 				cleared = b.Succs[1]
 			}
-			return cleared != target && !reachesVia(cleared, target, pre)
+			return cleared != target && !reachesVia(cleared, target, pre), cleared
 		}
 		if _, ok := b.Instrs[len(b.Instrs)-1].(*ssa.Jump); ok && len(b.Succs) == 1 {
 			b = b.Succs[0]
 			continue
 		}
-		return false
+		return false, nil
 	}
-	return false
+	return false, nil
 }
 
 // flagUnchanged: v is the loop-carried flag phi itself (possibly through phis that only merge it with the cleared constant
@@ -1461,4 +1479,53 @@ func onlyLogged(mi *ssa.MakeInterface) bool {
 		}
 	}
 	return true
+}
+
+// exitLanding: where control really continues after the early exit edge from→to of a loop: following
+// unconditional jumps, and an `if` on a boolean phi that is a constant on this path (the branch that constant takes).
+func exitLanding(from, to *ssa.BasicBlock) *ssa.BasicBlock {
+	pred, b := from, to
+	for depth := 0; depth < 6; depth++ {
+		if len(b.Instrs) == 0 {
+			return b
+		}
+		switch t := b.Instrs[len(b.Instrs)-1].(type) {
+		case *ssa.If:
+			cond := t.Cond
+			neg := false
+			if u, ok := cond.(*ssa.UnOp); ok && u.Op == token.NOT {
+				cond, neg = u.X, true
+			}
+			phi, ok := cond.(*ssa.Phi)
+			if !ok || phi.Block() != b {
+				return b
+			}
+			for i, p := range b.Preds {
+				if p != pred {
+					continue
+				}
+				c, ok := phi.Edges[i].(*ssa.Const)
+				if !ok || c.Value == nil {
+					return b
+				}
+				val := c.Value.String() == "true"
+				if neg {
+					val = !val
+				}
+				if val {
+					return b.Succs[0]
+				}
+				return b.Succs[1]
+			}
+			return b
+		case *ssa.Jump:
+			if len(b.Succs) != 1 {
+				return b
+			}
+			pred, b = b, b.Succs[0]
+		default:
+			return b
+		}
+	}
+	return b
 }
